@@ -10,10 +10,10 @@
 (* fetched was really requested; no stage touches a seed after it was reported finished.          *)
 EXTENDS Integers, Sequences, FiniteSets, TraceLib
 
-VARIABLES l, queued, kind, fins, entered, reqs
-vars == <<l, queued, kind, fins, entered, reqs>>
+VARIABLES l, queued, kind, fins, entered, reqs, expect
+vars == <<l, queued, kind, fins, entered, reqs, expect>>
 
-Init == l = 1 /\ queued = {} /\ kind = <<>> /\ fins = <<>> /\ entered = {} /\ reqs = {}
+Init == l = 1 /\ queued = {} /\ kind = <<>> /\ fins = <<>> /\ entered = {} /\ reqs = {} /\ expect = <<>>
 
 \* a node still awaits fetching (Fresh, PreProcessed) or post-processing (Archived); GotRedirected / GotChildren
 \* nodes have been fetched themselves and only wait for their children
@@ -26,30 +26,33 @@ Next ==
   /\ l <= TraceLen
   /\ LET e == TraceLog[l] IN
      CASE e.ev = "queued" ->
-            /\ queued' = queued \cup {e.id} /\ UNCHANGED <<kind, fins, entered, reqs>>
+            /\ queued' = queued \cup {e.id} /\ UNCHANGED <<kind, fins, entered, reqs, expect>>
        [] e.ev = "lq.claim" ->     \* rows taken from the queue (outlinks queued during the run included)
-            /\ queued' = queued \cup {e.ids[i] : i \in 1..Len(e.ids)} /\ UNCHANGED <<kind, fins, entered, reqs>>
+            /\ queued' = queued \cup {e.ids[i] : i \in 1..Len(e.ids)} /\ UNCHANGED <<kind, fins, entered, reqs, expect>>
        [] e.ev = "site" ->
-            /\ kind' = (e.id :> e.kind) @@ kind /\ UNCHANGED <<queued, fins, entered, reqs>>
+            /\ kind' = (e.id :> e.kind) @@ kind /\ UNCHANGED <<queued, fins, entered, reqs, expect>>
+       [] e.ev = "expect" ->      \* a site whose outcome is fixed by construction: these URLs are the seed's whole tree
+            /\ expect' = (e.id :> {e.urls[i] : i \in 1..Len(e.urls)}) @@ expect /\ UNCHANGED <<queued, kind, fins, entered, reqs>>
        [] e.ev = "req" ->
-            /\ reqs' = reqs \cup {e.url} /\ UNCHANGED <<queued, kind, fins, entered>>
+            /\ reqs' = reqs \cup {e.url} /\ UNCHANGED <<queued, kind, fins, entered, expect>>
        [] e.ev \in StageEv ->
             /\ Check(FinCount(e.id) = 0, l, "a stage worked on a seed after it was reported finished (" \o e.ev \o ")")
             /\ Check(e.ev # "arch.done" \/ \A i \in 1..Len(e.tree) : e.tree[i].st = "Archived" => e.tree[i].u \in reqs, l,
                      "a node was marked archived although its URL was never requested")
-            /\ entered' = entered \cup {e.id} /\ UNCHANGED <<queued, kind, fins, reqs>>
+            /\ entered' = entered \cup {e.id} /\ UNCHANGED <<queued, kind, fins, reqs, expect>>
        [] e.ev = "lq.finish.recv" ->
             /\ Check(e.id \in queued, l, "finish message for a seed that was never queued")
             /\ Check(FinCount(e.id) = 0, l, "seed reported finished twice")
             \* a queue row whose text is not a URL never becomes a seed: the consumer acknowledges it at once
             /\ Check(AllTerminal(e.tree) \/ (e.id \notin entered /\ ((e.id \in DOMAIN kind /\ kind[e.id] = "unparsable") \/ (HasKey(e, "parsed") /\ ~e.parsed))), l,
                      "seed reported finished while a node of its tree still awaits fetching or post-processing")
-            /\ fins' = (e.id :> FinCount(e.id) + 1) @@ fins /\ UNCHANGED <<queued, kind, entered, reqs>>
+            /\ Check(e.id \notin DOMAIN expect \/ expect[e.id] \subseteq reqs, l, "seed reported finished although a URL its pages lead to was never requested (part of its tree was dropped)")
+            /\ fins' = (e.id :> FinCount(e.id) + 1) @@ fins /\ UNCHANGED <<queued, kind, entered, reqs, expect>>
        [] e.ev = "quiescent" ->
             /\ Check(\A id \in queued : FinCount(id) = 1, l, "a queued seed was never reported finished (dropped)")
             /\ Check(e.table = <<>>, l, "reactor still tracks seeds after the queue drained")
-            /\ UNCHANGED <<queued, kind, fins, entered, reqs>>
-       [] OTHER -> UNCHANGED <<queued, kind, fins, entered, reqs>>
+            /\ UNCHANGED <<queued, kind, fins, entered, reqs, expect>>
+       [] OTHER -> UNCHANGED <<queued, kind, fins, entered, reqs, expect>>
   /\ l' = l + 1
 
 Spec == Init /\ [][Next]_vars
